@@ -195,6 +195,13 @@ func (p *Printer) value(b *tokens, v model.Val) {
 		b.add("ip", "(", model.QuoteString(model.PrintIP(v.IP)), ")")
 	case model.KEntity:
 		b.add(v.T + "::" + model.QuoteString(v.ID))
+	case model.KLong:
+		if v.I < 0 && p.Noise && p.coin() {
+			// the sign and the digits are separate tokens: layout may come between them
+			b.add("-", v.String()[1:])
+			return
+		}
+		b.add(v.String())
 	default:
 		b.add(v.String())
 	}
